@@ -940,6 +940,7 @@ func checkC18(r *Run) {
 	}
 	r.generate(all)
 	r.compile(compiled)
+	baseFailed := map[string]bool{}
 	for _, fc := range fcs {
 		r.Evaluations++
 		r.distinctAdd(fc.faulted.Name)
@@ -947,7 +948,14 @@ func checkC18(r *Run) {
 		id := fmt.Sprintf("%s@%s", fc.kind, fc.msg)
 		f := fc.faulted
 		if fc.base.GenErr != "" {
-			r.Inconclusive = append(r.Inconclusive, "C18 base run failed: "+fc.base.GenErr)
+			if strings.HasPrefix(fc.base.GenErr, "HARNESS") {
+				r.Inconclusive = append(r.Inconclusive, "C18 base run failed: "+fc.base.GenErr)
+			} else if !baseFailed[fc.base.Name] {
+				// the fault-free descriptor with this configuration is in D: "other selected types are unaffected"
+				// has no meaning when nothing is generated at all
+				baseFailed[fc.base.Name] = true
+				r.violate("base-run-failed", fc.base.Name, "", "-", "the plugin fails on the fault-free descriptor: "+fc.base.GenErr, map[string]interface{}{"stderr": tail(string(fc.base.Plugin.Stderr), 8)})
+			}
 			continue
 		}
 		if f.Plugin.Exit != 0 || f.Resp == nil || f.Resp.Error != nil {
